@@ -71,8 +71,9 @@ Qed.
 Lemma pos_cmp m n : Pos.compare_cont Eq m n = Z.compare (Z.pos m) (Z.pos n).
 Proof. reflexivity. Qed.
 
+(* the guard `!(f >= -0x1p63 && f < 0x1p63)` *)
 Theorem float_to_int_guard_signed c z :
-  flt c mtwo63 = false -> fge c two63 = false -> f_trunc c = Some z -> - 2 ^ 63 <= z < 2 ^ 63.
+  fge c mtwo63 = true -> flt c two63 = true -> f_trunc c = Some z -> - 2 ^ 63 <= z < 2 ^ 63.
 Proof.
   unfold flt, fge, fcmp, f_trunc.
   destruct two63_shape as [H63 E63]. destruct mtwo63_shape as [Hm63 Em63]. rewrite E63, Em63. clear E63 Em63.
@@ -145,11 +146,11 @@ Proof.
   - apply Z.div_pos; [lia|]. apply Z.pow_pos_nonneg; lia.
 Qed.
 
-(* the guard `f <= -1.0 || f >= 0x1p64` *)
+(* the guard `!(f > -1.0 && f < 0x1p64)` *)
 Theorem float_to_int_guard_unsigned c z :
-  fle c mone = false -> fge c two64 = false -> f_trunc c = Some z -> 0 <= z < 2 ^ 64.
+  fgt c mone = true -> flt c two64 = true -> f_trunc c = Some z -> 0 <= z < 2 ^ 64.
 Proof.
-  unfold fle, fge, fcmp, f_trunc.
+  unfold fgt, flt, fcmp, f_trunc.
   destruct two64_shape as [H64 E64]. destruct mone_shape as [Hm1 Em1]. rewrite E64, Em1. clear E64 Em1.
   destruct (of_bits c) as [s|s|s pl Hpl|s m e Hb]; try discriminate.
   - intros _ _ [= <-]. lia.
@@ -172,9 +173,9 @@ Qed.
 (* conversely: every value whose integral part is representable passes the guard
    (fixed finding float-to-unsigned-negative-fraction-rejected: `(unsigned char)-0.5` is 0) *)
 Lemma unsigned_guard_complete c z :
-  f_trunc c = Some z -> 0 <= z < 2 ^ 64 -> fle c mone = false /\ fge c two64 = false.
+  f_trunc c = Some z -> 0 <= z < 2 ^ 64 -> fgt c mone = true /\ flt c two64 = true.
 Proof.
-  unfold fle, fge, fcmp, f_trunc.
+  unfold fgt, flt, fcmp, f_trunc.
   destruct two64_shape as [H64 E64]. destruct mone_shape as [Hm1 Em1]. rewrite E64, Em1. clear E64 Em1.
   destruct (of_bits c) as [s|s|s pl Hpl|s m e Hb]; try discriminate.
   - intros _ _. rewrite !cmp_zero_finite. split; reflexivity.
@@ -214,8 +215,8 @@ Proof.
   replace (is_int (TFloat 8) && is_float (TInt k)) with false by reflexivity.
   replace (is_float (TFloat 8) && is_int (TInt k)) with true by reflexivity.
   replace (is_signed (TInt k)) with (isigned k) by reflexivity. rewrite Hs.
-  change (op_fle flocq_ops) with fle. change (op_fge flocq_ops) with fge. change (op_f_trunc flocq_ops) with f_trunc.
-  rewrite L, G, T. discriminate.
+  change (op_fgt flocq_ops) with fgt. change (op_flt flocq_ops) with flt. change (op_f_trunc flocq_ops) with f_trunc.
+  rewrite L, G, T. cbn [andb negb]. discriminate.
 Qed.
 
 (* a folded float -> integer conversion is the truncated value, which the 64-bit host type can hold,
@@ -232,15 +233,81 @@ Proof.
   replace (is_int (TFloat sz) && is_float (TInt k)) with false by reflexivity.
   replace (is_float (TFloat sz) && is_int (TInt k)) with true by reflexivity.
   replace (is_signed (TInt k)) with (isigned k) by reflexivity.
-  change (op_flt flocq_ops) with flt. change (op_fle flocq_ops) with fle. change (op_fge flocq_ops) with fge. change (op_f_trunc flocq_ops) with f_trunc.
+  change (op_flt flocq_ops) with flt. change (op_fgt flocq_ops) with fgt. change (op_fge flocq_ops) with fge. change (op_f_trunc flocq_ops) with f_trunc.
   unfold of_i64.
   destruct (isigned k) eqn:Hs.
-  - destruct (flt c mtwo63) eqn:L; [discriminate|]. destruct (fge c two63) eqn:G; [discriminate|].
-    replace (false || false) with false by reflexivity.
+  - destruct (fge c mtwo63) eqn:L; [|discriminate]. destruct (flt c two63) eqn:G; [|discriminate].
+    cbn [andb negb].
     destruct (f_trunc c) as [z|] eqn:T; [|discriminate]. rewrite C. intros [= <-]. exists z.
     split; [reflexivity|]. split; [apply (float_to_int_guard_signed c z L G T)|reflexivity].
-  - destruct (fle c mone) eqn:L; [discriminate|]. destruct (fge c two64) eqn:G; [discriminate|].
-    replace (false || false) with false by reflexivity.
+  - destruct (fgt c mone) eqn:L; [|discriminate]. destruct (flt c two64) eqn:G; [|discriminate].
+    cbn [andb negb].
     destruct (f_trunc c) as [z|] eqn:T; [|discriminate]. rewrite C. intros [= <-]. exists z.
     split; [reflexivity|]. split; [apply (float_to_int_guard_unsigned c z L G T)|reflexivity].
+Qed.
+
+(* ---- the range tests reject everything that has no integral part: NaN and both infinities ---- *)
+Lemma cmp_inf_finite s1 s2 m2 e2 H2 :
+  b64_compare (B754_infinity s1) (B754_finite s2 m2 e2 H2) = Some (if s1 then Lt else Gt).
+Proof. destruct s1; reflexivity. Qed.
+
+Lemma cmp_nan_l s pl H (y : binary64) : b64_compare (B754_nan s pl H) y = None.
+Proof. reflexivity. Qed.
+
+(* a pattern for which `f >= lo` and `f < hi` both hold (lo, hi finite) is a zero or a finite number *)
+Lemma signed_guard_finite c : fge c mtwo63 = true -> flt c two63 = true -> exists z, f_trunc c = Some z.
+Proof.
+  unfold flt, fge, fcmp, f_trunc.
+  destruct two63_shape as [H63 E63]. destruct mtwo63_shape as [Hm63 Em63]. rewrite E63, Em63. clear E63 Em63.
+  destruct (of_bits c) as [s|s|s pl Hpl|s m e Hb].
+  - intros _ _. eexists. reflexivity.
+  - rewrite !cmp_inf_finite. destruct s; discriminate.
+  - rewrite !cmp_nan_l. discriminate.
+  - intros _ _. eexists. reflexivity.
+Qed.
+
+Lemma unsigned_guard_finite c : fgt c mone = true -> flt c two64 = true -> exists z, f_trunc c = Some z.
+Proof.
+  unfold flt, fgt, fcmp, f_trunc.
+  destruct two64_shape as [H64 E64]. destruct mone_shape as [Hm1 Em1]. rewrite E64, Em1. clear E64 Em1.
+  destruct (of_bits c) as [s|s|s pl Hpl|s m e Hb].
+  - intros _ _. eexists. reflexivity.
+  - rewrite !cmp_inf_finite. destruct s; discriminate.
+  - rewrite !cmp_nan_l. discriminate.
+  - intros _ _. eexists. reflexivity.
+Qed.
+
+(* every conversion of a constant, whatever the two types and the 64-bit pattern (NaNs of any payload and both
+   infinities included), returns a value or a diagnostic: the undefined host conversion is never reached *)
+Theorem cast_const_never_host_ub t lt c : cast_const flocq_ops t lt c <> HostUB.
+Proof.
+  unfold cast_const.
+  change (op_flt flocq_ops) with flt. change (op_fgt flocq_ops) with fgt. change (op_fge flocq_ops) with fge. change (op_f_trunc flocq_ops) with f_trunc.
+  assert (S : (if negb (fge c mtwo63 && flt c two63) then Diag
+               else match f_trunc c with Some z => Val (cast flocq_ops t (of_i64 z)) | None => HostUB end) <> HostUB).
+  { destruct (fge c mtwo63) eqn:L; [|discriminate]. destruct (flt c two63) eqn:G; [|discriminate].
+    destruct (signed_guard_finite c L G) as [z ->]. discriminate. }
+  assert (U : (if negb (fgt c mone && flt c two64) then Diag
+               else match f_trunc c with Some z => Val (cast flocq_ops t (z mod M64)) | None => HostUB end) <> HostUB).
+  { destruct (fgt c mone) eqn:L; [|discriminate]. destruct (flt c two64) eqn:G; [|discriminate].
+    destruct (unsigned_guard_finite c L G) as [z ->]. discriminate. }
+  destruct t; try discriminate;
+    (destruct (is_int lt && is_float _); [discriminate|]);
+    (destruct (is_float lt && is_int _); [|discriminate]);
+    (destruct (is_signed _); assumption).
+Qed.
+
+Theorem float_to_int_never_host_ub k sz c : cast_const flocq_ops (TInt k) (TFloat sz) c <> HostUB.
+Proof. apply cast_const_never_host_ub. Qed.
+
+(* and a NaN is always diagnosed *)
+Theorem nan_to_int_diag k sz c : is_nan_bits c = true -> cast_const flocq_ops (TInt k) (TFloat sz) c = Diag.
+Proof.
+  intros N. unfold cast_const.
+  replace (is_int (TFloat sz) && is_float (TInt k)) with false by reflexivity.
+  replace (is_float (TFloat sz) && is_int (TInt k)) with true by reflexivity.
+  change (op_flt flocq_ops) with flt. change (op_fgt flocq_ops) with fgt. change (op_fge flocq_ops) with fge.
+  assert (A : fge c mtwo63 = false /\ fgt c mone = false).
+  { revert N. unfold is_nan_bits, fge, fgt, fcmp. destruct (of_bits c); try discriminate. intros _. split; reflexivity. }
+  destruct A as [-> ->]. cbn [andb negb]. destruct (is_signed (TInt k)); reflexivity.
 Qed.
